@@ -59,6 +59,31 @@ Definition l1_admin (m : L1.msg) : bool :=
   | _ => false
   end.
 
+(* Messages of OTHER bridges and bridge creation.  Account-space assumptions (DESIGN section 4:
+   escrow addresses are distinct from each other, from user / module addresses, and nobody
+   signs for one) appear as guards: the message is not spent from our escrow, the other
+   bridge's escrow is not ours, the community pool is not our escrow. *)
+Definition other_ok (c : scfg) (m : L1.msg) : bool :=
+  match m with
+  | L1.MDeposit sender b _ _ _ _ =>
+      negb (b =? bid c)%N && negb (bool_decide (L1.resolve (c1 c) sender = Some (escrow_of c))) &&
+      negb (bool_decide (L1.escrow (c1 c) b = escrow_of c))
+  | L1.MFinalize _ b _ _ _ _ _ _ _ _ _ _ =>
+      negb (b =? bid c)%N && negb (bool_decide (L1.escrow (c1 c) b = escrow_of c))
+  | L1.MPropose _ b _ _ _ | L1.MDelete _ b _ => negb (b =? bid c)%N
+  | L1.MCreateBridge creator _ =>
+      negb (bool_decide (L1.resolve (c1 c) creator = Some (escrow_of c))) &&
+      negb (bool_decide (L1.pool (c1 c) = escrow_of c))
+  | _ => false
+  end.
+(* a payout of another bridge that names OUR escrow as recipient is a plain credit: a donation *)
+Definition other_donation (c : scfg) (m : L1.msg) : option (bytes * Z) :=
+  match m with
+  | L1.MFinalize _ _ _ _ _ _ to d amt _ _ _ =>
+      if bool_decide (L1.resolve (c1 c) to = Some (escrow_of c)) then Some (d, amt) else None
+  | _ => None
+  end.
+
 Inductive smsg :=
 | SDeposit (e : L1.env) (sender to d : bytes) (amt : Z) (data : bytes)       (* L1 user deposit into the bridge *)
 | SSend1 (e : L1.env) (from to : N) (d : bytes) (amt : Z)                    (* L1 bank send; to the escrow = a donation *)
@@ -67,7 +92,8 @@ Inductive smsg :=
 | SPropose (e : L1.env) (proposer : bytes) (idx l2block lo hi v : N) (bh : bytes)   (* honest output over events (lo, hi] *)
 | SDelete (e : L1.env) (challenger : bytes) (idx : N)
 | SClaim (e : L1.env) (sender : bytes) (idx m lo hi v : N) (bh : bytes)      (* claim of recorded withdrawal m against output idx *)
-| SAdmin1 (e : L1.env) (m : L1.msg).                                        (* L1 role / config / params / environment message *)
+| SAdmin1 (e : L1.env) (m : L1.msg)                                         (* L1 role / config / params / environment message *)
+| SOther (e : L1.env) (m : L1.msg).                                         (* bridge creation; deposit / propose / delete / claim on ANOTHER bridge *)
 
 Definition set_l1 (s : sys) (x : L1.l1state) : sys := {| l1 := x; l2 := l2 s; paid := paid s; donated := donated s |}.
 Definition set_l2 (s : sys) (x : L2.l2state) : sys := {| l1 := l1 s; l2 := x; paid := paid s; donated := donated s |}.
@@ -133,6 +159,16 @@ Definition sys_step (c : scfg) (s : sys) (m : smsg) : sys * bool :=
       | None => (s, false)
       end
   | SAdmin1 e m1 => if l1_admin m1 then lift1 c s e m1 else (s, false)
+  | SOther e m1 =>
+      if other_ok c m1 then
+        match lift1 c s e m1 with
+        | (s', true) => (match other_donation c m1 with
+                         | Some x => {| l1 := l1 s'; l2 := l2 s'; paid := paid s'; donated := x :: donated s' |}
+                         | None => s'
+                         end, true)
+        | r => r
+        end
+      else (s, false)
   end.
 
 Fixpoint sys_run (c : scfg) (s : sys) (h : list smsg) : sys :=
